@@ -1195,6 +1195,28 @@ fn native_spec() {
                 println!("SPEC-REPLAY MISMATCH target=styled_wrap_trim case=about {text:?} at width {width}: rendered {body:?} (leading whitespace {lead_out:?}, expected {lead_in:?})");
             }
         }
+    } else if target == "short_cluster_skip_consumed" {
+        // C01/C02: a cluster revisited by a subcommand whose positional accepts hyphen values
+        let mk = || Command::new("prog")
+            .arg(Arg::new("v").short('v').action(ArgAction::SetTrue))
+            .subcommand(Command::new("sub").short_flag('S')
+                .arg(Arg::new("a").short('a').action(ArgAction::SetTrue))
+                .arg(Arg::new("rest").num_args(0..).allow_hyphen_values(true).action(ArgAction::Append)));
+        for argv in [vec!["prog", "-vSx", "-a"], vec!["prog", "-vSa", "-a"], vec!["prog", "-vS", "-a"], vec!["prog", "-v", "-S", "-a"]] {
+            let a2 = argv.clone();
+            match std::panic::catch_unwind(move || mk().try_get_matches_from(a2)) {
+                Err(_) => println!("SPEC-REPLAY MISMATCH target=short_cluster_skip_consumed case=hyphen-accepting positional in the flag subcommand {argv:?}: PANIC (tracking of flag_subcmd_skip)"),
+                Ok(Err(_)) => {}
+                Ok(Ok(m)) => {
+                    let s = m.subcommand_matches("sub");
+                    let rest: Vec<String> = s.and_then(|s| s.get_many::<String>("rest").map(|v| v.cloned().collect())).unwrap_or_default();
+                    // a consumed flag must not come back as a value, and `-a` after the cluster must be seen
+                    if rest.iter().any(|r| r.contains('S') || r.contains('v')) || !(s.map(|s| s.get_flag("a")).unwrap_or(false) || rest.iter().any(|r| r == "-a")) {
+                        println!("SPEC-REPLAY MISMATCH target=short_cluster_skip_consumed case=hyphen-accepting positional in the flag subcommand {argv:?}: v={} sub a={:?} rest={rest:?}", m.get_flag("v"), s.map(|s| s.get_flag("a")));
+                    }
+                }
+            }
+        }
     } else if target == "match_arg_error" {
         // C10: the error kind names a rule the input really breaks
         for acws in [false, true] {
